@@ -25,7 +25,9 @@ SPEC = {
     "rule": "generated scripts on rig R1 (real hashicorp/raft nodes in memory, real FSM and *Consensus): 1..3 initial members of 6 "
             "peer identities; AddPeer/RmPeer through the real Consensus.AddPeer/RmPeer at leader and followers (of absent, present, "
             "last, leading and own peers) interleaved with pin/unpin, snapshots, restarts; every joiner runs the real WaitForSync and "
-            "is observed when it returns, some with their FSM held back (entries queued, not applied); Peers() of every live member after quiescence. non-trivial = at least two membership calls "
+            "is observed when it returns, some with their FSM held back (entries queued, not applied), some LAGGING: the joiner's Raft reads its RPCs through a gate that "
+            "lets entries through up to a scripted log index (leader MaxAppendEntries = 1), so it has received nothing / one entry / half / all but its own add entry while WaitForSync runs "
+            "(every 8th script is this shape on a 2..3-member cluster, plus 15 % of the random joins); Peers() of every live member after quiescence. non-trivial = at least two membership calls "
             "and one acknowledged write; distinct = distinct canonical JSON of the script. "
             "Cluster level (TestVerifC17Cluster, package ipfscluster): generated scripts of the REAL Cluster.PeerRemove / PeerAdd / watchPeers / Shutdown "
             "on 1..4 of 5 peers. Rig A: struct-literal Cluster peers, each running the real watchPeers goroutine, over a recording fake of the consensus "
@@ -40,6 +42,7 @@ SPEC = {
               2: "spec_okb (C17: success = member/non-member, nothing else changes, present-add and absent-remove are successful no-ops, "
                  "the last peer is not removable, all live members report the same set)",
               10: "spec_okb (C17 pinsets: every member = replay of a prefix; a ready joiner covers everything committed before its join returned)",
+              11: "spec_okb (C17 joiner: WaitForSync returned on a peer that had not received its own add entry - it did not list itself in its own Peers())",
               20: "spec_okb (C17 cluster level, one operation: PeerRemove re-pins before the configuration entry and drops no pin, disabled re-pinning only "
                   "removes, success = no member and nothing else changes, every pin the removed peer held has C10's outcome; other operations leave the pinset alone)",
               21: "spec_okb (C17 cluster level, who runs: a peer whose own view of the peerset lacks it has stopped itself; a member has not; nobody starts by itself)",
